@@ -1,5 +1,6 @@
 import PhononModel.Model.Displacement
 import PhononModel.Model.FDSolver
+import PhononModel.Model.FDSolverLit
 import PhononModel.Model.Wire
 open PhononModel PhononModel.Wire PhononModel.Disp PhononModel.FD
 
@@ -165,6 +166,13 @@ def handle (line : String) : String :=
           match runDirectT atomList R perms (data.map (·.1)) with
           | some fc => pure s!"cert={cert} ms={ms} fc {showRats (flat4 fc)}"
           | none => pure s!"cert={cert} ms={ms} none"
+        | "directlit" =>
+          let (nd, c) ← c.nat?
+          let (data, c) ← readData n nrot nd c
+          if !c.atEnd then none
+          match runDirectLitT atomList R perms (data.map (·.1)) with
+          | some fc => pure s!"fc {showRats (flat4 fc)}"
+          | none => pure "none"
         | "twostage" =>
           let ⟨_, permsT, RT, c⟩ ← readPerms n c
           let (nd, c) ← c.nat?
